@@ -49,6 +49,87 @@ def witnesses():
     return w
 
 
+# known findings that depend on how the program is WRITTEN (printer options), with the kind of mismatch expected
+E_W = ("enum", 1, (G.VOID, I("i32")))
+ERR_W = ("err", E_W, I("i64"))
+
+
+def printer_witnesses():
+    """[(class, program, printer options)]"""
+    res = []
+    # C01-5: a variant value returned directly into E!T is taken as the payload
+    f = {"tparams": 0, "cparams": [], "params": [(1, I("i32"))], "ret": ERR_W, "body":
+         ("block", None, ERR_W,
+          (("if", ("cmp", "gt", ("var", 1), ("int", I("i32"), 2)),
+            ("block", None, G.VOID, (("return", ("inject", ERR_W, 0, ("inject", E_W, 1, ("int", I("i32"), 9)))),), ("unit",)), ("unit",)),),
+          ("inject", ERR_W, 1, ("cast", I("i64"), ("var", 1))))}
+    m = {"tparams": 0, "cparams": [], "params": [], "ret": G.VOID, "body":
+         ("block", None, G.VOID,
+          (("print", ("switch", I("i64"), ("call", 0, (), (), (("int", I("i32"), 5),)), 2,
+                      (("int", I("i64"), 1000), ("var", 2)), None, ERR_W)),), ("unit",))}
+    res.append(("variant-returned-into-error-union-taken-as-payload", {"funs": [f, m], "main": 1}, {"direct_variants": True}))
+    # C01-6: a payload-less variant written directly into E!T panics the code generator
+    m2 = {"tparams": 0, "cparams": [], "params": [], "ret": G.VOID, "body":
+          ("block", None, G.VOID,
+           (("let", 1, ERR_W, False, ("inject", ERR_W, 0, ("inject", E_W, 0, ("unit",)))),
+            ("print", ("isvar", ("var", 1), 0, ERR_W))), ("unit",))}
+    res.append(("payloadless-variant-into-error-union-panics", {"funs": [m2], "main": 0}, {"direct_variants": True}))
+    # C01-7: `[2]usize => ..` as a switch arm pattern with the argument used
+    OA = ("opt", ("arr", 2, G.USIZE))
+    m3 = {"tparams": 0, "cparams": [], "params": [], "ret": G.VOID, "body":
+          ("block", None, G.VOID,
+           (("let", 1, OA, False, ("inject", OA, 1, ("arr", G.USIZE, (("int", G.USIZE, 1), ("int", G.USIZE, 2))))),
+            ("print", ("switch", G.USIZE, ("var", 1), 2, (("int", G.USIZE, 0), ("index", ("var", 2), ("int", G.USIZE, 1))), None, OA))),
+           ("unit",))}
+    res.append(("switch-arm-inline-array-type-pattern", {"funs": [m3], "main": 0}, {"inline_patterns": True}))
+    # C01-8: core.println of a 64-bit value below -2^32 (the C08 cast defect inside core/fmt.capy)
+    m4 = {"tparams": 0, "cparams": [], "params": [], "ret": G.VOID, "body":
+          ("block", None, G.VOID, (("let", 1, I("i64"), True, ("int", I("i64"), -(10 ** 12))), ("print", ("var", 1))), ("unit",))}
+    res.append(("core-println-wide-negative", {"funs": [m4], "main": 0}, {"core_print": True}))
+    return res
+
+
+PRINTER_CLASS_KIND = {"variant-returned-into-error-union-taken-as-payload": "wrong-output",
+                      "payloadless-variant-into-error-union-panics": "compiler-panic",
+                      "switch-arm-inline-array-type-pattern": "compiler-panic",
+                      "core-println-wide-negative": "wrong-output"}
+
+
+def sum_boundary_programs():
+    """#unwrap on the wrong variant (fault in main and in a callee), defers around faults and returns."""
+    res = []
+    OI = ("opt", I("i32"))
+    for k_have, k_want in ((0, 1), (1, 1), (1, 0)):
+        for st, mk in ((E_W, lambda k: ("inject", E_W, k, ("unit",) if k == 0 else ("int", I("i32"), 7))),
+                       (OI, lambda k: ("inject", OI, k, ("unit",) if k == 0 else ("int", I("i32"), 8))),
+                       (ERR_W, lambda k: ("inject", ERR_W, k, ("inject", E_W, 0, ("unit",)) if k == 0 else ("int", I("i64"), 9)))):
+            pt = G.variants(st)[k_want]
+            use = ("print", ("isvar", ("var", 1), k_want, st)) if pt in (G.VOID, E_W) else ("print", ("unwrap", ("var", 1), k_want, st))
+            if pt in (G.VOID, E_W) and k_have == k_want:
+                continue
+            callee = {"tparams": 0, "cparams": [], "params": [(1, st)], "ret": G.VOID, "body":
+                      ("block", None, G.VOID, (("defer", ("print", ("int", I("u8"), 1))), ("print", ("int", I("u8"), 2)), use,
+                                               ("print", ("int", I("u8"), 3))), ("unit",))}
+            main = {"tparams": 0, "cparams": [], "params": [], "ret": I("u8"), "body":
+                    ("block", None, I("u8"), (("defer", ("print", ("int", I("u8"), 4))), ("call", 0, (), (), (mk(k_have),)),
+                                              ("print", ("int", I("u8"), 5))), ("int", I("u8"), 40 + k_have))}
+            res.append({"funs": [callee, main], "main": 1})
+    # .try on a success and on nil / an error, in a callee with pending defers
+    for st, ok, bad in ((OI, ("inject", OI, 1, ("int", I("i32"), 8)), ("inject", OI, 0, ("unit",))),
+                        (ERR_W, ("inject", ERR_W, 1, ("int", I("i64"), 9)), ("inject", ERR_W, 0, ("inject", E_W, 1, ("int", I("i32"), 3))))):
+        pt = G.variants(st)[1]
+        callee = {"tparams": 0, "cparams": [], "params": [(1, st)], "ret": st, "body":
+                  ("block", None, st, (("defer", ("print", ("int", I("u8"), 1))), ("let", 2, pt, False, ("try", ("var", 1))),
+                                       ("print", ("var", 2)), ("defer", ("print", ("int", I("u8"), 3)))),
+                   ("inject", st, 1, ("bin", "add", ("var", 2), ("int", pt, 1))))}
+        show = lambda e, x: ("print", ("switch", I("u8"), e, x, (("int", I("u8"), 20), ("int", I("u8"), 21)), None, st))
+        main = {"tparams": 0, "cparams": [], "params": [], "ret": G.VOID, "body":
+                ("block", None, G.VOID, (show(("call", 0, (), (), (ok,)), 5), show(("call", 0, (), (), (bad,)), 6),
+                                         show(("call", 0, (), (), (ok,)), 7)), ("unit",))}
+        res.append({"funs": [callee, main], "main": 1})
+    return res
+
+
 def boundary_programs():
     """Deterministic programs at the edges of the defined faults and of integer arithmetic (always run)."""
     res = []
@@ -178,11 +259,15 @@ def model(drv, progs):
     return [G.parse_outcome(l) for l in C.run_lines([drv], lines, indexed=False)]
 
 
-def run_all(capy, progs, style=0):
-    return C.parallel_map(lambda kp: G.build_and_run(capy, G.pretty(kp[1], style=(style + kp[0]) % 5)), list(enumerate(progs)))
+def run_all(capy, progs, style=0, popts=None):
+    popts = popts or [{}] * len(progs)
+    return C.parallel_map(lambda kp: G.build_and_run(capy, G.pretty(kp[1], style=(style + kp[0]) % 5, **popts[kp[0]])),
+                          list(enumerate(progs)))
 
 
-def shrink(drv, capy, prog, kind, max_rounds=14, width=48):
+def shrink(drv, capy, prog, kind, max_rounds=14, width=48, popt=None):
+    popt = popt or {}
+    cp = bool(popt.get("core_print"))
     """Greedy AST shrinking that preserves the kind of mismatch."""
     cur = prog
     for _ in range(max_rounds):
@@ -192,9 +277,9 @@ def shrink(drv, capy, prog, kind, max_rounds=14, width=48):
             part = cands[k:k + width]
             outs = model(drv, part)
             ok = [(c, o) for c, o in zip(part, outs) if o["wt"] and o["kind"] in ("DONE", "FAULT")]
-            impl = C.parallel_map(lambda co: G.build_and_run(capy, G.pretty(co[0])), ok)
+            impl = C.parallel_map(lambda co: G.build_and_run(capy, G.pretty(co[0], **popt)), ok)
             for (c, o), i in zip(ok, impl):
-                m = G.compare(c, o, i)
+                m = G.compare(c, o, i, core_print=cp)
                 if m and m[0] == kind:
                     found = c
                     break
@@ -213,10 +298,10 @@ def run(tier, seed):
     drv = fl.driver()
     capy = fl.capy()
     if drv and capy:
-        n = 240 if tier == "quick" else 1500
+        n = 200 if tier == "quick" else 1200
         nprobe = 6 if tier == "quick" else 30
         rng = fl.rng.fork("programs")
-        progs = corpus() + boundary_programs()
+        progs = corpus() + boundary_programs() + sum_boundary_programs()
         ncorpus = len(progs)
         hist = {}
         for i in range(n):
@@ -234,8 +319,19 @@ def run(tier, seed):
             for i in range(nprobe):
                 progs.append(G.Gen(prng.fork(str(i)), {sw: True}, max_funs=2, max_stmts=6).program())
                 origin.append("probe:" + cls)
+        popts = [{} for _ in progs]
+        for cls, wp, po in printer_witnesses():
+            progs.append(wp)
+            origin.append("witness:" + cls)
+            popts.append(po)
+        # core.println sub-stream: the first generated programs again, printing through core.println
+        nprintln = 16 if tier == "quick" else 160
+        for i in range(min(nprintln, n)):
+            progs.append(progs[ncorpus + i])
+            origin.append("println")
+            popts.append({"core_print": True})
         outs = model(drv, progs)
-        impls = run_all(capy, progs, style=seed % 5)
+        impls = run_all(capy, progs, style=seed % 5, popts=popts)
         kinds = {}
         ill_typed = []
         stuck = []
@@ -247,6 +343,7 @@ def run(tier, seed):
         nevents = 0
         mism = []
         for idx, (p, o, im, org) in enumerate(zip(progs, outs, impls, origin)):
+            po = popts[idx]
             kinds[o["kind"]] = kinds.get(o["kind"], 0) + 1
             if not o["wt"]:
                 ill_typed.append(idx)
@@ -264,7 +361,7 @@ def run(tier, seed):
             h, _ = G.features(p)
             if len(o["events"]) >= 3 and (h.get("while", 0) + h.get("loop", 0) + h.get("call", 0) + h.get("arr", 0) + h.get("struct", 0)) > 0:
                 nontriv.add(C.sha(G.serialise(p)))
-            m = G.compare(p, o, im)
+            m = G.compare(p, o, im, core_print=bool(po.get("core_print")))
             if m:
                 mism.append((idx, p, o, im, m, org))
         nshrunk = 0
@@ -274,15 +371,25 @@ def run(tier, seed):
                 small = p
             else:
                 nshrunk += 1
-                small = shrink(drv, capy, p, m[0], max_rounds=10 if tier == "quick" else 30, width=32)
+                small = shrink(drv, capy, p, m[0], max_rounds=10 if tier == "quick" else 30, width=32, popt=popts[idx])
+            po = popts[idx]
+            cp = bool(po.get("core_print"))
             so = model(drv, [small])[0]
-            sim = G.build_and_run(capy, G.pretty(small))
-            sm = G.compare(small, so, sim) or m
+            sim = G.build_and_run(capy, G.pretty(small, **po))
+            sm = G.compare(small, so, sim, core_print=cp) or m
             cls = classify(small, sm[0], sim)
+            wcls = org[len("witness:"):] if org.startswith("witness:") else None
+            if wcls in PRINTER_CLASS_KIND:
+                cls = wcls if sm[0] == PRINTER_CLASS_KIND[wcls] else "%s:%s" % (wcls, sm[0])
+            elif cp and cls.startswith("unexplained") and sm[0] in ("wrong-output",) and any(
+                    nm in ("i64", "isize") and z < -(1 << 32) for nm, z in so["events"]):
+                cls = "core-println-wide-negative"
+            elif cp and cls.startswith("unexplained"):
+                cls = "println:" + cls
             payload = {"key": "e2e:" + C.sha(G.serialise(small)), "stream": "end-to-end", "origin": org,
-                       "mismatch": sm[0], "detail": sm[1], "source": G.pretty(small),
+                       "mismatch": sm[0], "detail": sm[1], "source": G.pretty(small, **po), "printer_options": po,
                        "program_ast": small, "serialised": G.serialise(small, FUEL),
-                       "expected_outcome": so, "expected_stdout": G.render_events(so["events"]),
+                       "expected_outcome": so, "expected_stdout": G.render_events(so["events"], cp),
                        "got_stdout": sim["stdout"][-2000:], "got_exit": sim["rc"], "build_output": sim["build_out"][-1500:],
                        "original_size": G.size(p), "shrunk_size": G.size(small)}
             v.failing(cls, payload)
@@ -297,7 +404,7 @@ def run(tier, seed):
             fl.broken.append({"what": "eval_prog got stuck on a well-typed program (contradicts C01_type_safety_partial) or driver error",
                               "count": len(stuck), "first": G.serialise(progs[stuck[0]], FUEL)[:3000]})
         # every known finding must be re-derived by its witness
-        for cls, _ in PROBES:
+        for cls in [c for c, _ in PROBES] + list(PRINTER_CLASS_KIND):
             f = v.classify(cls)
             if f is not None and f["id"] not in v.known_hits:
                 v.notes.append({"known_finding_not_reproduced": f["id"], "class": cls,
@@ -309,19 +416,23 @@ def run(tier, seed):
         v.coverage["programs_generated"] = n
         v.coverage["corpus_programs"] = ncorpus
         v.coverage["probe_programs"] = len(progs) - n - ncorpus
+        v.coverage["println_substream_programs"] = origin.count("println")
         v.coverage["print_events_compared"] = nevents
         v.coverage["model_outcomes"] = kinds
         v.coverage["skipped_trap_or_fuel"] = kinds.get("TRAP", 0) + kinds.get("FUEL", 0)
         v.coverage["histograms"] = {"generator_constructs": hist, "program_size_nodes": sizes}
         v.coverage["generator_switches_off_by_default"] = {
-            "cast_signed_to_wider_unsigned": "C08 (u16.(i8 -1) = 255)", "div128": "C01-1", "int128_in_signatures": "C01-2",
+            "div128": "C01-1", "int128_in_signatures": "C01-2",
             "aggregate_assign_reads_target": "C01-3",
+            "printer: direct_variants": "C01-5 / C01-6 (variant values written directly into E!T)",
+            "printer: inline_patterns": "C01-7 (`[2]usize =>` switch arm pattern)",
             "not generated at all": "unannotated literals above i32::MAX (C09), break/continue across pending defers (C03), "
-                                    "variant->enum casts (C02); switch is not in CapyCore yet (its scope defect is fixed in /repo 2904875, "
-                                    "no generator switch exists or is needed for it)"}
+                                    "(defer, switch, enums and variant->enum casts ARE generated since the fixes in /repo 1af504c)"}
         v.coverage["rule"] = ("%d random well-typed CapyCore programs (1-5 functions, <= 12 globals, nesting <= 6, loops <= 64 iterations, "
-                              "ints of all 12 types, bool, arrays, structs, labelled break/continue, blocks with values, recursion, "
-                              "bounds-checked indexing) + corpus + %d probe programs with one known-defect switch on; each is checked by the "
+                              "ints of all 12 types, bool, arrays, structs, enums with payloads, optionals, error unions, switch with "
+                              "argument and default arm, #is_variant / #unwrap, .try, defer, labelled break/continue, blocks with values, "
+                              "recursion, bounds-checked indexing) + a core.println sub-stream (the first programs again, printing through "
+                              "core.println) + corpus + %d probe programs with one known-defect switch on; each is checked by the "
                               "extracted well_typed, evaluated by the extracted eval_prog (fuel %d), compiled by the real capy and run; "
                               "compared: stdout and exit status (fault message + exit 1 for out-of-bounds). non-trivial = >= 3 print "
                               "events and at least one loop / call / array / struct; distinct by serialised AST"
@@ -332,8 +443,9 @@ def run(tier, seed):
                      "division, shift amounts masked by width-1, left-to-right evaluation, place index before right-hand side, by-value "
                      "aggregates); it was written from the README and from observing the compiler, and is the specification here",
                      "covered fragment: integers of every width, bool, locals, assignment, if/else, while/loop, labelled break/continue, "
-                     "blocks with values, functions/recursion, return, arrays with bounds checks, structs, casts; NOT yet in CapyCore: char, "
-                     "slices, enums/switch, optionals, error unions, pointers, lambdas, varargs, defer, floats",
+                     "blocks with values, functions/recursion, return, arrays with bounds checks, structs, casts, defer (exactly once, LIFO, on "
+                     "every exit path), enums with payloads, variant->enum injection, switch with argument and default arm, #is_variant, "
+                     "#unwrap (abort fault), optionals, error unions, .try; NOT yet in CapyCore: char, slices, pointers, lambdas, varargs, floats",
                      "division by zero and MIN / -1 trap the machine (SIGFPE); they are outcome Trap of the model, avoided by the generator and skipped",
                      "the pretty printer and the Capy printing prelude (decimal / hex printers over libc putchar) are trusted glue; the prelude is itself compiled by the compiler under test",
                      "x86-64 target: isize/usize are 64 bits"]
